@@ -243,6 +243,7 @@ def check_set_data_size(fx, R, cq, cname):
     uncond = any(is_assign(s['e']) for s in first)
     R.check(uncond, 'L1', cname + '::setDataSize:assigns', 'dataSize_ is not assigned from the argument unconditionally (on the no-growth path the previous size would stay)',
             'dataSize_ assigned on every path', fx.rel(f['loc']), 'E-STATE')
+    check_capacity(fx, R, cq, cname, f)
     # buffers only grow here
     shr = []
     rec = fx.records[cq]
@@ -261,6 +262,54 @@ def check_set_data_size(fx, R, cq, cname):
     only = all(n == 'setDataSize' for (n, _, _) in shr)
     R.form(only, 'L1', cname + ':buffer-resizes', 'row buffers are resized/reset outside setDataSize (%s); what that does to the rows of the current problem is judged by the instance rule L7 only for the paths it '
            'reads' % [t_ for t_ in shr if t_[0] != 'setDataSize'], 'row buffers resized only in setDataSize (column-only resizes elsewhere)', fx.rel(f['loc']), 'E-STATE')
+
+
+def check_capacity(fx, R, cq, cname, f):
+    """L1 (E-STEP): setDataSize(n) stepped on witness (rows held before, n): afterwards every row buffer holds at least n rows (the caller fills rows 0..n-1 through getJ/getY/getW next) and
+    dataSize_ is n.  Buffers: J_, Y_, W_; `rows()` / `size()` of a buffer is its row count, resize() sets it."""
+    from .. import mini
+    bufs = ['this.' + b for b in BUFFERS]
+    bad = why = None
+    n_w = 0
+    pn = f['params'][0]['name']
+    for (held, n_) in ((0, 5), (5, 5), (5, 3), (3, 5), (1, 2), (6, 131), (131, 6)):
+        rows = {b: held for b in bufs}
+        S_ = mini.Step(deep_unwrap)
+        S_.hooks['.rows'] = lambda t, env: rows[t[1]] if t[1] in rows else (_ for _ in ()).throw(mini.Unsupported('rows of %s' % (t[1],)))
+        S_.hooks['.size'] = S_.hooks['.rows']
+        S_.hooks['.cols'] = lambda t, env: 2
+
+        def resize(t, env):
+            if t[1] not in rows:
+                raise mini.Unsupported('resize of %s' % (t[1],))
+            rows[t[1]] = S_.ev(t[2], env)
+            return 0
+        S_.hooks['.resize'] = resize
+        S_.hooks['.conservativeResize'] = resize
+        for h_ in ('.setConstant', '.setZero', '.setOnes', '.fill'):
+            S_.hooks[h_] = lambda t, env: 0
+        env = {pn: n_, 'this.estimateSize_': 2, 'this.dataSize_': held}
+        try:
+            S_.call(f['body'], env)
+        except (mini.Unsupported, TypeError, KeyError) as u:
+            why = str(u)[:140]
+            break
+        n_w += 1
+        short = [b for b in bufs if not (isinstance(rows[b], (int, float)) and rows[b] >= n_)]
+        if short and bad is None:
+            bad = (held, n_, short[0], rows[short[0]])
+        elif env.get('this.dataSize_') != n_ and bad is None:
+            bad = (held, n_, 'this.dataSize_', env.get('this.dataSize_'))
+    if why:
+        R.undecided('L1', cname + '::setDataSize:capacity', 'setDataSize() is not steppable: %s' % why)
+    elif bad and bad[2] == 'this.dataSize_':
+        R.violated('L1', cname.split('<')[0] + '::setDataSize:size', 'stepping setDataSize(%d) on buffers of %d rows leaves dataSize_ = %s' % (bad[1], bad[0], bad[3]), fx.rel(f['loc']), 'E-STEP')
+    elif bad:
+        R.violated('L1', cname.split('<')[0] + '::setDataSize:capacity', 'stepping setDataSize(%d) on an object whose row buffers hold %d rows leaves %s with %s rows: the caller fills rows 0..%d next (getJ / getY / getW), '
+                   'beyond the end of the buffer - the problem solved is not the one that was set up (out-of-bounds writes; an Eigen assertion in a debug build)' % (bad[1], bad[0], bad[2][5:], bad[3], bad[1] - 1),
+                   fx.rel(f['loc']), 'E-STEP')
+    else:
+        R.holds('L1', cname + '::setDataSize:capacity', 'on %d witness (rows held, requested) pairs every row buffer ends with at least the requested rows and dataSize_ is the request' % n_w, fx.rel(f['loc']), 'E-STEP')
 
 
 def loop_header(L):
